@@ -126,7 +126,7 @@ class Findings:
         if os.path.exists(p):
             with open(p) as f:
                 data = json.load(f)
-            self.entries = [e for e in data.get('findings', []) if e.get('property') == prop and e.get('status') == 'known']
+            self.entries = [e for e in data.get('findings', []) if (prop == e.get('property') or prop in (e.get('property') if isinstance(e.get('property'), list) else [])) and e.get('status') == 'known']
         self.hit = {}
 
     def match(self, sig):
